@@ -123,6 +123,10 @@ def sessions(ctx):
             s['events'].append({'in': {'e': 'cmd', 'c': 'list', 'hasm': True, 'ok': True, 'cap': -1, 'caperr': False, 'spell': ['', '', []],
                                        'ast': mrender.pat_bare({'k': 'idgen', 'id': gen.SRV0 if k % 2 == 1 else 5, 'gen': g_}, mrender.W('A'))}})
         yield s, {'dialect': 'new'}, 'churn-labels'
+    # connections that come and go (the connection-id interface as GDB mode uses it): a name is never handed out twice
+    from props import c04
+    for k in range(ctx.pick(120, 1000)):
+        yield c04.iface_session(ctx.seed * 49999 + k, ctx.rnd.randint(8, 40)), {'dialect': 'new'}, 'open-close-reopen'
     for k in range(ctx.pick(2, 6)):
         yield many_connections(ctx.seed + k, ctx.rnd.choice([30, 60, 710])), {'dialect': 'new'}, 'many-connections'
 
